@@ -1,16 +1,22 @@
+(* Re-indexing engine (C05-C11): case format, agreement of the mirror model with the implementation, the
+   abstract specification of the edit API (stable handles: id -> entity) written against the property
+   texts, the per-property checkers on the *observed* output, and the known-finding classifiers. *)
 From Coq Require Import List Arith NArith Bool Lia.
 Import ListNotations.
-From Orca Require Import Reindex.
-Open Scope N_scope.
+From Orca Require Import Util Reindex.
+Local Open Scope N_scope.
 
 Record rcase := mkRC {
-  b_imports : list (N * N);                    (* (space code, fp) *)
+  b_imports : list (N * N);                    (* (space code 0 func 1 global 2 memory 3 table 4 tag, fp) *)
   b_funcs : list N; b_globals : list N; b_mems : list N;   (* fps of local entities *)
+  b_nexports : N;                              (* exports of the base module (their sites come first) *)
   h_ops : list op;
-  refs_f : list N; refs_g : list N; refs_m : list N;
+  sites : list rsite;                          (* every reference: kind, space, caller id, owner *)
   o_rets : list (option N);                    (* ids returned by the API calls that completed *)
   o_api_panic : bool;                          (* an API call panicked (history truncated there) *)
-  o_enc : option emod }.                       (* None = encode panicked / not reached *)
+  o_enc : option emod;                         (* None = encode panicked / not reached *)
+  o_valid : bool;                              (* wasmparser's validator accepts the output *)
+  o_same2 : bool }.                            (* a second encode() returned the same bytes *)
 
 Fixpoint imp_items (code : N) (pos : N) (k : N) (l : list (N * N)) : list item :=
   match l with
@@ -33,11 +39,10 @@ Definition optN_eqb (a b : option N) := match a, b with Some x, Some y => N.eqb 
 Fixpoint leqb {A} (e : A -> A -> bool) (a b : list A) : bool :=
   match a, b with [], [] => true | x :: a', y :: b' => e x y && leqb e a' b' | _, _ => false end.
 Definition pair_eqb (a b : N * N) := N.eqb (fst a) (fst b) && N.eqb (snd a) (snd b).
-Definition trip_eqb (a b : N * N * N) := pair_eqb (fst a) (fst b) && N.eqb (snd a) (snd b).
 Definition emod_eqb (a b : emod) : bool :=
   leqb pair_eqb (e_imports a) (e_imports b) && leqb N.eqb (e_funcs a) (e_funcs b)
   && leqb N.eqb (e_globals a) (e_globals b) && leqb N.eqb (e_mems a) (e_mems b)
-  && leqb trip_eqb (e_refs a) (e_refs b).
+  && leqb pair_eqb (e_sites a) (e_sites b).
 
 (* run as far as the implementation got: the model must panic exactly where it did *)
 Fixpoint run_pref (m : mst) (h : list op) (rets : list (option N)) : mst * list (option N) * bool :=
@@ -49,16 +54,275 @@ Fixpoint run_pref (m : mst) (h : list op) (rets : list (option N)) : mst * list 
                end
   end.
 
+Definition dead_exports (h : list op) : list N :=
+  flat_map (fun o => match o with DeleteExport k => [k] | _ => [] end) h.
+
 Definition agree (c : rcase) : bool :=
   let '(m, rets, p) := run_pref (mk_base c) (h_ops c) [] in
   leqb optN_eqb rets (o_rets c) && Bool.eqb p (o_api_panic c) &&
   (if p then true else
-   match encode m (refs_f c) (refs_g c) (refs_m c), o_enc c with
+   match encode m (dead_exports (h_ops c)) (sites c), o_enc c with
    | Ok e, Some e' => emod_eqb e e'
    | Panic _, None => true
    | _, _ => false
    end).
 
-Fixpoint mismatches (i : N) (cs : list rcase) : list N :=
-  match cs with [] => [] | c :: cs' => (if agree c then [] else [i]) ++ mismatches (i + 1) cs' end.
-Definition report (cs : list rcase) := (lenN cs, mismatches 0 cs).
+(* ------------------------------------------------------------------------------------------ *)
+(* The abstract specification: ids are stable handles.  State per space: association list
+   id -> (fingerprint, is-import, dead); plus the import list (space, id of the entity). *)
+Record ent := mkEnt { en_fp : N; en_imp : bool; en_dead : bool }.
+Definition amap := list (N * ent).
+Fixpoint aget (m : amap) (k : N) : option ent :=
+  match m with [] => None | (k', v) :: m' => if N.eqb k k' then Some v else aget m' k end.
+Definition aset (m : amap) (k : N) (v : ent) : amap := (k, v) :: filter (fun kv => negb (N.eqb (fst kv) k)) m.
+
+Record sstate := mkSS { ss_f : amap; ss_g : amap; ss_m : amap; ss_imports : list (N * N);   (* (space code, entity id) *)
+                        ss_ok : bool;       (* false: the history leaves the domain of the specification *)
+                        ss_coll : bool }.   (* true: a call returned an id that already designates another entity *)
+Definition ss_get (s : sstate) (x : sp) := match x with SF => ss_f s | SG => ss_g s | SM => ss_m s end.
+Definition ss_set (s : sstate) (x : sp) (m : amap) :=
+  match x with
+  | SF => mkSS m (ss_g s) (ss_m s) (ss_imports s) (ss_ok s) (ss_coll s)
+  | SG => mkSS (ss_f s) m (ss_m s) (ss_imports s) (ss_ok s) (ss_coll s)
+  | SM => mkSS (ss_f s) (ss_g s) m (ss_imports s) (ss_ok s) (ss_coll s)
+  end.
+Definition ss_bad (s : sstate) := mkSS (ss_f s) (ss_g s) (ss_m s) (ss_imports s) false (ss_coll s).
+Definition ss_collide (s : sstate) := mkSS (ss_f s) (ss_g s) (ss_m s) (ss_imports s) (ss_ok s) true.
+Definition ss_push_import (s : sstate) (code id : N) :=
+  mkSS (ss_f s) (ss_g s) (ss_m s) (ss_imports s ++ [(code, id)]) (ss_ok s) (ss_coll s).
+
+Fixpoint base_imp_ents (code pos : N) (l : list (N * N)) : amap :=
+  match l with
+  | [] => []
+  | (c, fp) :: l' => if N.eqb c code then (pos, mkEnt fp true false) :: base_imp_ents code (pos + 1) l'
+                     else base_imp_ents code pos l'
+  end.
+Fixpoint base_loc_ents (pos : N) (l : list N) : amap :=
+  match l with [] => [] | fp :: l' => (pos, mkEnt fp false false) :: base_loc_ents (pos + 1) l' end.
+Definition base_space (code : N) (imps : list (N * N)) (locs : list N) : amap :=
+  let a := base_imp_ents code 0 imps in a ++ base_loc_ents (lenN a) locs.
+(* entity id of every base import entry: its position among the imports of its own kind *)
+Fixpoint base_import_ids (seen : N -> N) (l : list (N * N)) : list (N * N) :=
+  match l with
+  | [] => []
+  | (c, _) :: l' => (c, seen c) :: base_import_ids (fun c' => if N.eqb c' c then seen c' + 1 else seen c') l'
+  end.
+Definition spec_base (c : rcase) : sstate :=
+  mkSS (base_space 0 (b_imports c) (b_funcs c)) (base_space 1 (b_imports c) (b_globals c))
+       (base_space 2 (b_imports c) (b_mems c)) (base_import_ids (fun _ => 0) (b_imports c)) true false.
+
+Definition spec_step (s : sstate) (o : op) (ret : option N) : sstate :=
+  match o, ret with
+  | AddLocal x fp, Some r =>
+      match aget (ss_get s x) r with
+      | Some _ => ss_collide s                                    (* the returned id is already a handle *)
+      | None => ss_set s x (aset (ss_get s x) r (mkEnt fp false false))
+      end
+  | ItAddGlobal fp, Some r =>
+      match aget (ss_g s) r with
+      | Some _ => ss_collide s
+      | None => ss_set s SG (aset (ss_g s) r (mkEnt fp false false))
+      end
+  | AddImport x fp, Some r =>
+      match aget (ss_get s x) r with
+      | Some _ => ss_collide s
+      | None => ss_push_import (ss_set s x (aset (ss_get s x) r (mkEnt fp true false))) (sp_code x) r
+      end
+  | Delete x id, _ =>
+      match aget (ss_get s x) id with
+      | Some e => ss_set s x (aset (ss_get s x) id (mkEnt (en_fp e) (en_imp e) true))
+      | None => ss_bad s
+      end
+  | LocalToImport id fp, _ =>
+      match aget (ss_f s) id with
+      | Some e => if en_imp e then s                               (* refused: already an import *)
+                  else if en_dead e then ss_bad s
+                  else ss_push_import (ss_set s SF (aset (ss_f s) id (mkEnt fp true false))) 0 id
+      | None => ss_bad s
+      end
+  | ImportToLocal k fp, _ =>
+      match nthN (ss_imports s) k with
+      | Some (0, fid) =>
+          match aget (ss_f s) fid with
+          | Some e => if en_imp e && negb (en_dead e) then ss_set s SF (aset (ss_f s) fid (mkEnt fp false false))
+                      else ss_bad s
+          | None => ss_bad s
+          end
+      | _ => ss_bad s
+      end
+  | AddExport _ _, _ | DeleteExport _, _ | AddData _, _ => s
+  | _, None => ss_bad s
+  end.
+Fixpoint spec_run (s : sstate) (h : list op) (rets : list (option N)) : sstate :=
+  match h, rets with
+  | o :: h', r :: rets' => spec_run (spec_step s o r) h' rets'
+  | _, _ => s
+  end.
+Definition spec_final (c : rcase) : sstate := spec_run (spec_base c) (h_ops c) (o_rets c).
+
+(* Wasm's rule: imports of that kind in import-section order, then the locally defined ones *)
+Definition space_of (e : emod) (x : sp) : list N :=
+  map snd (filter (fun i => N.eqb (fst i) (sp_code x)) (e_imports e))
+  ++ match x with SF => e_funcs e | SG => e_globals e | SM => e_mems e end.
+Definition designates (e : emod) (x : sp) (q : N) : option N := nthN (space_of e x) q.
+
+Definition spec_live_local (m : amap) (id : N) : bool :=
+  match aget m id with Some e => negb (en_imp e) && negb (en_dead e) | None => false end.
+Definition spec_active (s : sstate) (dead : list N) (r : rsite) : bool :=
+  match rs_owner r with
+  | ONone => true
+  | OFunc id => spec_live_local (ss_f s) id
+  | OGlobal id => spec_live_local (ss_g s) id
+  | OExport k => negb (existsb (N.eqb k) dead)
+  end.
+
+Fixpoint number {A} (n : N) (l : list A) : list (N * A) :=
+  match l with [] => [] | x :: l' => (n, x) :: number (n + 1) l' end.
+Definition sp_eqb (a b : sp) := N.eqb (sp_code a) (sp_code b).
+
+(* the active sites of space x, with their spec entity *)
+Definition spec_sites (c : rcase) (x : sp) : list (N * rsite * option ent) :=
+  let s := spec_final c in
+  flat_map (fun nr => let '(n, r) := nr in
+              if sp_eqb (rs_sp r) x && spec_active s (dead_exports (h_ops c)) r
+              then [(n, r, aget (ss_get s x) (rs_id r))] else [])
+           (number 0 (sites c)).
+
+Definition is_start (r : rsite) := match rs_k r with KStart => true | _ => false end.
+(* some active reference designates a deleted entity: encoding has to fail loudly (a deleted start
+   function may instead be dropped) *)
+Definition refs_dead (c : rcase) (x : sp) : bool :=
+  existsb (fun t => let '(_, r, e) := t in
+             match e with Some e => en_dead e && negb (is_start r) | None => false end) (spec_sites c x).
+Definition refs_unknown (c : rcase) (x : sp) : bool :=
+  existsb (fun t => match snd t with None => true | Some _ => false end) (spec_sites c x).
+
+(* every active reference of space x is bound to the entity its caller id designated *)
+Definition sites_bound (c : rcase) (x : sp) : bool :=
+  match o_enc c with
+  | None => refs_dead c SF || refs_dead c SG || refs_dead c SM      (* loud failure is right only then *)
+  | Some e =>
+      forallb (fun t => let '(n, r, en) := t in
+                 match en with
+                 | None => true
+                 | Some en =>
+                     match find (fun s => N.eqb (fst s) n) (e_sites e) with
+                     | Some (_, q) => negb (en_dead en) && optN_eqb (designates e x q) (Some (en_fp en))
+                     | None => en_dead en && is_start r
+                     end
+                 end) (spec_sites c x)
+  end.
+
+(* multiset equality of fingerprint lists *)
+Definition count (x : N) (l : list N) : nat := length (filter (N.eqb x) l).
+Definition same_set (a b : list N) : bool :=
+  Nat.eqb (length a) (length b) && forallb (fun x => Nat.eqb (count x a) (count x b)) a.
+Definition live_fps (m : amap) (imp : bool) : list N :=
+  flat_map (fun kv => let e := snd kv in if Bool.eqb (en_imp e) imp && negb (en_dead e) then [en_fp e] else []) m.
+(* exactly the live entities are present, each with its identity (fingerprint), imports as imports *)
+Definition live_exact (c : rcase) (x : sp) : bool :=
+  match o_enc c with
+  | None => true
+  | Some e =>
+      let s := spec_final c in
+      same_set (live_fps (ss_get s x) true) (map snd (filter (fun i => N.eqb (fst i) (sp_code x)) (e_imports e)))
+      && same_set (live_fps (ss_get s x) false) (match x with SF => e_funcs e | SG => e_globals e | SM => e_mems e end)
+  end.
+
+Definition has_site (c : rcase) (x : sp) : bool := existsb (fun r => sp_eqb (rs_sp r) x) (sites c).
+Definition hist_has (c : rcase) (p : op -> bool) : bool := existsb p (h_ops c).
+Definition in_domain (c : rcase) : bool :=
+  negb (o_api_panic c) && ss_ok (spec_final c)
+  && negb (refs_unknown c SF) && negb (refs_unknown c SG) && negb (refs_unknown c SM).
+Definition encoded (c : rcase) : bool := match o_enc c with Some _ => true | None => false end.
+Definition valid_ok (c : rcase) : bool := negb (encoded c) || o_valid c.
+
+(* ------------------------------------------------------------------------------------------ *)
+(* known-finding classes, decided on the input (through the mirror model's view of the final state) *)
+Definition final_model (c : rcase) : mst := fst (fst (run_pref (mk_base c) (h_ops c) [])).
+Definition ispace (c : rcase) (x : sp) : list item * list (N * N) :=
+  match index_space (get_sp (final_model c) x) with Ok r => r | Panic _ => ([], []) end.
+
+Fixpoint increasing (l : list N) : bool :=
+  match l with a :: (b :: _) as t => (a <? b) && increasing t | _ => true end.
+(* D02: the live import items of a space, in index-space order, are not in import-section order *)
+Definition known_D02 (c : rcase) : bool :=
+  existsb (fun x => negb (increasing (flat_map (fun i => match it_imp i with Some k => if it_del i then [] else [k] | None => [] end)
+                                               (fst (ispace c x))))) [SF; SG; SM].
+Definition moved (c : rcase) (x : sp) (id : N) : bool :=
+  negb (optN_eqb (lookup (snd (ispace c x)) id) (Some id)).
+(* D03 / D05: a copied (never re-indexed) reference whose target moves or is deleted *)
+Definition known_copied (k : rk) (x : sp) (c : rcase) : bool :=
+  existsb (fun r => match rs_k r, rk_code k with
+                    | k', kc => N.eqb (rk_code k') kc && sp_eqb (rs_sp r) x && moved c x (rs_id r)
+                    end) (sites c).
+Definition known_D03 := known_copied KExport SG.
+Definition known_D05 := known_copied KElemExpr SF.
+(* D06: an import added or converted after parsing and then deleted stays in the index space *)
+Definition known_D06 (c : rcase) : bool :=
+  existsb (fun x => let s := get_sp (final_model c) x in
+             existsb (fun i => is_import i && it_del i) (skipn (N.to_nat (s_num s - s_added s)) (s_items s))) [SF; SG; SM].
+(* D07: replace_import_in_module uses the ImportsID as the FunctionID *)
+Fixpoint d07_go (s : sstate) (h : list op) (rets : list (option N)) : bool :=
+  match h, rets with
+  | o :: h', r :: rets' =>
+      (match o with
+       | ImportToLocal k _ => match nthN (ss_imports s) k with Some (0, fid) => negb (N.eqb fid k) | _ => true end
+       | _ => false
+       end) || d07_go (spec_step s o r) h' rets'
+  | _, _ => false
+  end.
+Definition known_D07 (c : rcase) : bool := d07_go (spec_base c) (h_ops c) (o_rets c).
+(* D24: iterator-level add_global followed by add_imported_global: the returned id collides *)
+Fixpoint after (p q : op -> bool) (h : list op) : bool :=
+  match h with [] => false | o :: h' => (p o && existsb q h') || after p q h' end.
+Definition is_itadd o := match o with ItAddGlobal _ => true | _ => false end.
+Definition is_addimp_g o := match o with AddImport SG _ => true | _ => false end.
+Definition known_D24 (c : rcase) : bool := after is_itadd is_addimp_g (h_ops c).
+(* D26: an import converted to a local function and then deleted stays as a deleted item among the locals *)
+Definition is_i2l o := match o with ImportToLocal _ _ => true | _ => false end.
+Definition is_del_f o := match o with Delete SF _ => true | _ => false end.
+Definition known_D26 (c : rcase) : bool := after is_i2l is_del_f (h_ops c).
+(* D01: the id maps are re-applied by a second encode: any non-identity map *)
+Definition known_D01 (c : rcase) : bool :=
+  existsb (fun x => existsb (fun kv => negb (N.eqb (fst kv) (snd kv))) (snd (ispace c x))) [SF; SG; SM]
+  || existsb (fun x => s_recalc (get_sp (final_model c) x)) [SF; SG; SM].
+
+Definition K (n : N) (p : rcase -> bool) : N * (rcase -> bool) := (n, p).
+Definition cls (c : rcase) (l : list (N * (rcase -> bool))) : list N :=
+  flat_map (fun kp : N * (rcase -> bool) => if snd kp c then [fst kp] else []) l.
+
+(* ------------------------------------------------------------------------------------------ *)
+Definition binds_ok (x : sp) (c : rcase) : bool := sites_bound c x && valid_ok c && negb (ss_coll (spec_final c)).
+
+Definition verdict06 (c : rcase) : Util.verdict :=
+  (agree c, in_domain c && has_site c SF, binds_ok SF c && live_exact c SF,
+   cls c [K 2 known_D02; K 5 known_D05; K 6 known_D06; K 7 known_D07; K 26 known_D26; K 3 known_D03; K 24 known_D24]).
+Definition verdict07 (c : rcase) : Util.verdict :=
+  (agree c, in_domain c && has_site c SG, binds_ok SG c && live_exact c SG,
+   cls c [K 2 known_D02; K 3 known_D03; K 5 known_D05; K 6 known_D06; K 24 known_D24; K 26 known_D26; K 7 known_D07]).
+Definition verdict08 (c : rcase) : Util.verdict :=
+  (agree c, in_domain c && has_site c SM, binds_ok SM c && live_exact c SM,
+   cls c [K 2 known_D02; K 3 known_D03; K 5 known_D05; K 6 known_D06; K 24 known_D24; K 26 known_D26; K 7 known_D07]).
+Definition is_delete o := match o with Delete _ _ | DeleteExport _ => true | _ => false end.
+Definition verdict09 (c : rcase) : Util.verdict :=
+  (agree c, in_domain c && hist_has c is_delete,
+   forallb (fun x => sites_bound c x && live_exact c x) [SF; SG; SM] && valid_ok c && negb (ss_coll (spec_final c)),
+   cls c [K 2 known_D02; K 3 known_D03; K 5 known_D05; K 6 known_D06; K 24 known_D24; K 26 known_D26; K 7 known_D07]).
+Definition verdict10 (c : rcase) : Util.verdict :=
+  (agree c, in_domain c && hist_has c is_i2l, binds_ok SF c && live_exact c SF,
+   cls c [K 2 known_D02; K 5 known_D05; K 6 known_D06; K 7 known_D07; K 26 known_D26; K 3 known_D03; K 24 known_D24]).
+Definition is_l2i o := match o with LocalToImport _ _ => true | _ => false end.
+Definition verdict11 (c : rcase) : Util.verdict :=
+  (agree c, in_domain c && hist_has c is_l2i, binds_ok SF c && live_exact c SF,
+   cls c [K 2 known_D02; K 5 known_D05; K 6 known_D06; K 7 known_D07; K 26 known_D26; K 3 known_D03; K 24 known_D24]).
+Definition verdict05 (c : rcase) : Util.verdict :=
+  (agree c, negb (o_api_panic c) && encoded c, o_same2 c, cls c [K 1 known_D01]).
+
+Definition report_C05 := run_report verdict05.
+Definition report_C06 := run_report verdict06.
+Definition report_C07 := run_report verdict07.
+Definition report_C08 := run_report verdict08.
+Definition report_C09 := run_report verdict09.
+Definition report_C10 := run_report verdict10.
+Definition report_C11 := run_report verdict11.
